@@ -244,17 +244,24 @@ PROPS = {
         "pkg": "c16",
         "level": "exploration",
         "level_text": "Exhaustive grid plus generated call paths, with the Go runtime as the independent oracle: each of the 35 stack-capturing and 6 domain-"
-                      "computing exported functions (table completeness checked against a go/parser scan of the root package, errutil, withstack and domains) is "
+                      "computing exported functions (55 table entries with the %w, empty-message and error-argument variants; completeness checked against a go/parser "
+                      "scan of the root package, errutil, withstack and domains) is "
                       "called, for depth 0..3, at the end of a call path through helper functions of two other packages (never-inlined functions, a function "
-                      "inlined into its caller, value and pointer methods); on the same source line runtime.Callers+CallersFrames records the logical stack. The "
-                      "innermost frame of the captured stack (function, file, line), GetOneLineSource and the package domain must denote the runtime's d-th frame.",
+                      "inlined into its caller, value and pointer methods, generic functions and methods); on the same source line runtime.Callers+CallersFrames records the logical stack. The "
+                      "innermost frame of the captured stack (function, file, line), GetOneLineSource and the package domain must denote the runtime's d-th frame. "
+                      "Call paths are 3-6 helpers deep, and in a quarter of the cases 20-70 (the library records at most 32 frames). Third part (innermost-source): "
+                      "over generated single-cause chains mixing stack-capturing layers of the library and of pkg/errors, layers without frames and wrappers of "
+                      "every kind (boosted: foreign wrappers that expose their cause only through Cause()), locally and after a hop, GetOneLineSource must give "
+                      "the answer it gives for the innermost frame-carrying layer of the model's chain taken alone, and file:line must be the first program "
+                      "counter that layer recorded as resolved by the Go runtime; nothing for chains without recorded frames.",
         "level_note": "The grid (every function x depth x every helper as innermost caller) is exhaustive; longer call paths are drawn by rapid. Frame identity is "
                       "function name + file + line as reported by the runtime.",
         "technique": "exhaustive grid + property-based call-path generation (rapid); differential oracle: runtime.Callers/CallersFrames at the same source line",
-        "rule": "grid: 41 functions x depth 0..3 (where a depth exists) x 8 innermost helpers, exhaustive; call-paths: rapid draws function, depth and a path of 3-6 "
-                "helpers over two packages. Non-trivial = depth > 0 or a non-empty helper path. Distinct = hash of the case JSON.",
+        "rule": "grid: 55 table entries x depth 0..3 (where a depth exists) x 12 innermost helpers, exhaustive; call-paths: rapid draws function, depth and a path of 3-6 "
+                "(a quarter: 20-70) helpers over two packages. Non-trivial = depth > 0 or a non-empty helper path; innermost-source: at least two layers with a "
+                "stack. Distinct = hash of the case JSON.",
         "assumptions": ["runtime.CallersFrames is the reference for 'the d-th caller' (inlined functions count as frames)"],
-        "parts": [plain("grid", "TestGrid"), rapid("call-paths", "TestProp", 16000, 320000)],
+        "parts": [plain("grid", "TestGrid"), rapid("call-paths", "TestProp", 16000, 320000), rapid("innermost-source", "TestSource", 8000, 160000)],
     },
     "C17": {
         "pkg": "c17",
